@@ -401,3 +401,20 @@ func TestMain(m *testing.M) {
 	flushStats()
 	os.Exit(code)
 }
+
+// runReplayFile executes a committed replay file and returns the violation detail ("" = holds).
+func runReplayFile(path string) string {
+	b, err := os.ReadFile(path)
+	if err != nil {
+		return "cannot read " + path + ": " + err.Error()
+	}
+	var rf replayFile
+	if err := json.Unmarshal(b, &rf); err != nil {
+		return "bad replay file: " + err.Error()
+	}
+	f := replayers[rf.Unit]
+	if f == nil {
+		return "no replayer for " + rf.Unit
+	}
+	return f(rf.Scenario)
+}
